@@ -513,3 +513,48 @@ Print Assumptions C11_last_key_code.
 Theorem C11_root_code : forall st mv, fn_Root st mv = Ret (match mv with [(k, _)] => Ok k | _ => Err EOther end).
 Proof. exact root_code. Qed.
 Print Assumptions C11_root_code.
+
+(* ---- Map.Remove and Map.RenameKey themselves (remove.go, rename.go), with remove, renameKey, prevValueByPath and parentPath
+   below them: translated from the current sources in write-back mode (the Go code stores in place into maps that are part of the
+   receiver's tree; the translation returns the receiver afterwards) and proved equal to the functional models [remove_path] /
+   [rename_key] the theorems above are stated with (GenProofs/PureG22.v) *)
+From Mxj Require Import GenProofs.PureG22.
+
+Theorem C11_Remove_code_is_model : forall st mv path,
+  fn_Remove (run_remove st) st mv path = map_result mv (remove_path (VMap mv) path).
+Proof. exact Remove_code_is_model. Qed.
+Print Assumptions C11_Remove_code_is_model.
+
+Theorem C11_RenameKey_code_is_model : forall pf st mv path newName, g_fieldSep st <> [] ->
+  fn_RenameKey (run_Exists pf st) (run_parentPath st) (run_renameKey st) st mv path newName
+  = map_result mv (rename_key pf (g_fieldSep st) (VMap mv) path newName).
+Proof. exact RenameKey_code_is_model. Qed.
+Print Assumptions C11_RenameKey_code_is_model.
+
+Theorem C11_remove_inner_code_is_model : forall st m path,
+  fn_remove (run_lastKey st) (run_prevValueByPath st) st m path = tree_result m (remove_path m path).
+Proof. exact remove_code_is_model. Qed.
+Print Assumptions C11_remove_inner_code_is_model.
+
+Theorem C11_rename_inner_code_is_model : forall st m path newName,
+  fn_renameKey (run_lastKey st) (run_prevValueByPath st) st m path newName
+  = tree_result m (with_parent (split1 dot path) (rename_write newName) m).
+Proof. exact rename_key_inner_code_is_model. Qed.
+Print Assumptions C11_rename_inner_code_is_model.
+
+Theorem C11_prev_value_by_path_code : forall st m path, prev_spec (split1 dot path) m (run_prevValueByPath st m path).
+Proof. exact run_prevValueByPath_spec. Qed.
+Print Assumptions C11_prev_value_by_path_code.
+
+Theorem C11_parent_path_code : forall st path, fn_parentPath st path = Ret (parent_path path).
+Proof. exact parent_path_code. Qed.
+Print Assumptions C11_parent_path_code.
+
+Theorem C11_Remove_code_no_panic : forall st mv path, fn_Remove (run_remove st) st mv path <> Crash.
+Proof. exact Remove_code_no_panic. Qed.
+Print Assumptions C11_Remove_code_no_panic.
+
+Theorem C11_RenameKey_code_no_panic : forall pf st mv path newName, g_fieldSep st <> [] ->
+  fn_RenameKey (run_Exists pf st) (run_parentPath st) (run_renameKey st) st mv path newName <> Crash.
+Proof. exact RenameKey_code_no_panic. Qed.
+Print Assumptions C11_RenameKey_code_no_panic.
